@@ -225,23 +225,29 @@ def claimFrom (st : St) (f1 f2 : Field) (s : Strat) : St :=
 def hasToTarget (st : St) (f1 : Field) : Bool := st.toC.any (fun c => c.rd == f1)
 def hasFromTarget (st : St) (f2 : Field) : Bool := st.fromC.any (fun c => c.rd == f2)
 
+def funcTo (f1 f2 : Field) (k : Nat) (fn : Fn) (st : St) : St :=
+  if fn.param == f1.ty && fn.result == f2.ty then claimTo st f1 f2 (.func k) else st
+
+def funcFrom (f1 f2 : Field) (k : Nat) (fn : Fn) (st : St) : St :=
+  if fn.param == f2.ty && fn.result == f1.ty then claimFrom st f1 f2 (.func k) else st
+
+/-- one iteration of the method loop of `makeFuncMap` -/
+def funcStep (f1 f2 : Field) (kf : Nat × Fn) (st : St) : St := funcFrom f1 f2 kf.1 kf.2 (funcTo f1 f2 kf.1 kf.2 st)
+
 /-- `makeFuncMap`: first method with exactly the types, per direction; the loop stops as soon as
     both fields have *some* target (possibly from an earlier pair) -/
 def funcLoop (f1 f2 : Field) : List (Nat × Fn) → St → St
   | [], st => st
-  | (k, fn) :: rest, st =>
-    let st1 := if fn.param == f1.ty && fn.result == f2.ty then claimTo st f1 f2 (.func k) else st
-    let st2 := if fn.param == f2.ty && fn.result == f1.ty then claimFrom st1 f1 f2 (.func k) else st1
-    if hasToTarget st2 f1 && hasFromTarget st2 f2 then st2 else funcLoop f1 f2 rest st2
+  | kf :: rest, st =>
+    if hasToTarget (funcStep f1 f2 kf st) f1 && hasFromTarget (funcStep f1 f2 kf st) f2 then funcStep f1 f2 kf st
+    else funcLoop f1 f2 rest (funcStep f1 f2 kf st)
 
 /-- `makeSubMap`: both (pointer-stripped) types named, the source one declared in the source
     package, the destination one in the destination package — of whatever underlying kind -/
 def subMap (f1 f2 : Field) (t1 t2 : Ty) (isSlice : Bool) (st : St) : St :=
-  let (p1, e1) := t1.strip
-  let (p2, e2) := t2.strip
-  if e1.isNamedIn .src && e2.isNamedIn .dest then
-    let st1 := claimTo st f1 f2 (if isSlice then .each p1 p2 else .sub p1 p2)
-    claimFrom st1 f1 f2 (if isSlice then .each p2 p1 else .sub p2 p1)
+  if t1.strip.2.isNamedIn .src && t2.strip.2.isNamedIn .dest then
+    claimFrom (claimTo st f1 f2 (if isSlice then .each t1.strip.1 t2.strip.1 else .sub t1.strip.1 t2.strip.1))
+      f1 f2 (if isSlice then .each t2.strip.1 t1.strip.1 else .sub t2.strip.1 t1.strip.1)
   else st
 
 /-- `makeSubListMap` -/
@@ -256,14 +262,17 @@ def indexed {α} (xs : List α) : List (Nat × α) := (List.range xs.length).zip
 def mismatchStep (fns : List Fn) (st : St) (p : Field × Field) : St :=
   subListMap p.1 p.2 (subMap p.1 p.2 p.1.ty p.2.ty false (funcLoop p.1 p.2 (indexed fns) st))
 
+def matchTo (conv : List (Ty × Ty)) (f1 f2 : Field) (st : St) : St :=
+  if (matchType conv f1.ty f2.ty).1 then claimTo st f1 f2 .assign
+  else if (matchType conv f1.ty f2.ty).2 then claimTo st f1 f2 .conv else st
+
+def matchFrom (conv : List (Ty × Ty)) (f1 f2 : Field) (st : St) : St :=
+  if (matchType conv f1.ty f2.ty).1 then claimFrom st f1 f2 .assign
+  else if (matchType conv f2.ty f1.ty).2 then claimFrom st f1 f2 .conv else st
+
 /-- one name-matched pair in `makeTypeMatch` -/
 def matchStep (conv : List (Ty × Ty)) (st : St) (p : Field × Field) : St :=
-  let f1 := p.1
-  let f2 := p.2
-  let (same, cv) := matchType conv f1.ty f2.ty
-  let (_, cvback) := matchType conv f2.ty f1.ty
-  let st1 := if same then claimTo st f1 f2 .assign else if cv then claimTo st f1 f2 .conv else st
-  if same then claimFrom st1 f1 f2 .assign else if cvback then claimFrom st1 f1 f2 .conv else st1
+  matchFrom conv p.1 p.2 (matchTo conv p.1 p.2 st)
 
 /-- the double loop `for f1 in src { for f2 in dest { if canNameMatch … } }` -/
 def pairs (nm : Field → Field → Bool) (fs ds : List Field) : List (Field × Field) :=
@@ -462,5 +471,289 @@ def tables (inp : Input) (p : Plan) : Tables :=
 /-- the `if a != nil && a.b != nil` guard of a reading field: `nilCheckRead` + `condofread` -/
 def readGuard (pp : List (List String)) (rd : Field) : List (List String) :=
   if rd.isEmbedded then sortPaths (readPaths pp rd) else []
+
+
+/-! ## Meaning of the emitted Go
+
+A selector `x.Name` is resolved by Go, not by the generator's `Path`: the unique shallowest member
+called `Name` (fields AND embedded type names take part). Reading through a nil embedded pointer
+panics; so does writing through one that was not allocated. Values carry provenance. -/
+
+structure Leaf where
+  path : List String
+  depth : Nat
+  decl : FDecl
+  deriving DecidableEq, Repr, Inhabited
+
+def leavesAt (pre : List String) (d : Nat) : Tree → List Leaf
+  | .nil => []
+  | .field f rest => ⟨pre ++ [f.name], d, f⟩ :: leavesAt pre d rest
+  | .embed n _ body rest => leavesAt (pre ++ [n]) (d + 1) body ++ leavesAt pre d rest
+
+def leavesOf (t : Tree) : List Leaf := leavesAt [] 0 t
+
+/-- every member name with its depth; embedded type names are members too -/
+def members (d : Nat) : Tree → List (String × Nat)
+  | .nil => []
+  | .field f rest => (f.name, d) :: members d rest
+  | .embed n _ body rest => (n, d) :: (members (d + 1) body ++ members d rest)
+
+/-- Go's selector rule for `x.name`: the path of the unique shallowest member, if it is a field -/
+def goResolve (t : Tree) (name : String) : Option Leaf :=
+  let ms := (members 0 t).filter (fun m => m.1 == name)
+  match ms with
+  | [] => none
+  | m :: rest =>
+    let dmin := rest.foldl (fun a x => min a x.2) m.2
+    if (ms.filter (fun x => x.2 == dmin)).length ≠ 1 then none
+    else match (leavesOf t).filter (fun l => l.decl.name == name && l.depth == dmin) with
+      | [l] => some l
+      | _ => none
+
+/-- the struct leaf a (pseudo-)field stands for: accessors reach the backing field -/
+def resolveField (t : Tree) (f : Field) : Option Leaf :=
+  if f.isGet || f.isSet then (leavesOf t).find? (fun l => l.depth == 0 && pascalS l.decl.name == f.backing)
+  else goResolve t f.name
+
+inductive V where
+  | zero
+  | leaf (path : String) (fn : Option Nat)
+  | elems (es : List V)
+  deriving Repr, Inhabited
+
+def V.isZero : V → Bool
+  | .zero => true
+  | _ => false
+
+partial def V.show : V → String
+  | .zero => "zero"
+  | .leaf p none => p
+  | .leaf p (some k) => s!"{p}+f{k}"
+  | .elems es => "[" ++ ",".intercalate (es.map V.show) ++ "]"
+
+/-- the content of a reading-side leaf when the slots in `N` are nil (two elements per struct slice) -/
+def readLeaf (N : List String) (l : Leaf) : V :=
+  let slot := joinPath l.path
+  match l.decl.ty with
+  | .ptr _ => if N.contains slot then .zero else .leaf slot none
+  | .slice (.ptr e) =>
+    if N.contains slot then .zero
+    else if e.isStructNamed then
+      .elems [if N.contains (slot ++ "#0") then .zero else .leaf slot none,
+              if N.contains (slot ++ "#1") then .zero else .leaf slot none]
+    else .leaf slot none
+  | .slice e =>
+    if N.contains slot then .zero
+    else if e.isStructNamed then .elems [.leaf slot none, .leaf slot none] else .leaf slot none
+  | _ => .leaf slot none
+
+def properPrefixes (p : List String) : List (List String) :=
+  (List.range p.length).filterMap (fun i => if i = 0 then none else some (p.take i))
+
+/-- the embedded pointers dereferenced by `x.<path>` -/
+def hops (pp : List (List String)) (p : List String) : List (List String) := (properPrefixes p).filter pp.contains
+
+def applyFn (k : Nat) : V → V
+  | .leaf p _ => .leaf p (some k)
+  | v => v
+
+/-- result of one statement body on the value read: `none` = nothing written, `error` = panic.
+    `guarded`: the template's own nil test (`if x != nil` / `if _x == nil { continue }`) is present;
+    `deref`: the result of ToX/FromX is dereferenced (`*x.ToX()`) -/
+def subValue (rdPtr wrPtr : Bool) (v : V) : Except Unit (Option V) :=
+  let guarded := rdPtr && !wrPtr          -- mapper.tmpl: `if and $sf.IsPtr (not $df.IsPtr)`
+  let deref := !wrPtr                     -- `$deref := cond $df.IsPtr "" "*"`
+  if v.isZero then
+    if guarded then .ok none
+    else if rdPtr && deref then .error ()
+    else .ok (some .zero)
+  else .ok (some v)
+
+def eachValue (rdPtr wrPtr : Bool) (v : V) : Except Unit (Option V) :=
+  match v with
+  | .zero => .ok none                     -- `if xs != nil`
+  | .elems es =>
+    let guarded := rdPtr && !wrPtr
+    let deref := !wrPtr
+    if es.any (fun e => e.isZero && !guarded && rdPtr && deref) then .error ()
+    else .ok (some (.elems es))
+  | v => .ok (some v)
+
+/-- written side while a method runs -/
+structure WSt where
+  alloc : List (List String) := []       -- embedded pointers that are non-nil
+  vals : List (String × V) := []
+  deriving Repr, Inhabited
+
+def WSt.get (w : WSt) (p : String) : V := ((w.vals.reverse.find? (fun e => e.1 == p)).map (·.2)).getD .zero
+
+/-- one side of a mapping method -/
+structure SideSem where
+  tree : Tree
+  ptrs : List (List String)
+  deriving Repr, Inhabited
+
+/-- evaluate `x.<path>` for reading: panics on a nil hop -/
+def derefOk (pp : List (List String)) (N : List String) (p : List String) : Bool :=
+  (hops pp p).all (fun h => !N.contains (joinPath h))
+
+/-- the guard `if x.A != nil && x.A.B != nil`: error = panic while evaluating, ok b = its value -/
+def evalGuard (pp : List (List String)) (N : List String) : List (List String) → Except Unit Bool
+  | [] => .ok true
+  | g :: gs =>
+    if !derefOk pp N g then .error ()
+    else if N.contains (joinPath g) then .ok false
+    else evalGuard pp N gs
+
+/-- can the mapper method be called: `s.Fn(x)` is a promoted VALUE-receiver method; through a nil
+    embedded pointer it panics -/
+def fnCallOk (mapperNil : Bool) (s : Strat) : Bool :=
+  match s with
+  | .func _ => !mapperNil
+  | _ => true
+
+def stratValue (s : Strat) (v : V) : Except Unit (Option V) :=
+  match s with
+  | .assign | .conv => .ok (some v)
+  | .func k => .ok (some (applyFn k v))
+  | .sub r w => subValue r w v
+  | .each r w => eachValue r w v
+
+/-- one guarded statement: reading side `rs` with nil slots `N`, written side `ws` -/
+def execStmt (rs ws : SideSem) (N : List String) (mapperNil : Bool) (c : Claim) (w : WSt) : Except Unit WSt := do
+  let g ← evalGuard rs.ptrs N (readGuard rs.ptrs c.rd)
+  if !g then return w
+  match resolveField rs.tree c.rd, resolveField ws.tree c.wr with
+  | some rl, some wl =>
+    if !derefOk rs.ptrs N rl.path then throw ()
+    if !fnCallOk mapperNil c.strat then throw ()
+    match ← stratValue c.strat (readLeaf N rl) with
+    | none => return w
+    | some v =>
+      if !(hops ws.ptrs wl.path).all w.alloc.contains then throw ()
+      return { w with vals := w.vals ++ [(joinPath wl.path, v)] }
+  | _, _ => throw ()      -- does not compile (regions exclude it)
+
+/-- `if d.P == nil { d.P = new(T) }` in list order -/
+def execAlloc (pp : List (List String)) : List (List String) → WSt → Except Unit WSt
+  | [], w => .ok w
+  | p :: ps, w =>
+    if (hops pp p).all w.alloc.contains then execAlloc pp ps { w with alloc := w.alloc ++ [p] } else .error ()
+
+def execStmts (rs ws : SideSem) (N : List String) (mapperNil : Bool) : List Claim → WSt → Except Unit WSt
+  | [], w => .ok w
+  | c :: cs, w => do
+    let w' ← execStmt rs ws N mapperNil c w
+    execStmts rs ws N mapperNil cs w'
+
+/-- constructor call `NewD(arg, …)`: arguments are evaluated unguarded; the constructor allocates
+    every embedded pointer (C02) -/
+def execCtor (rs ws : SideSem) (N : List String) (mapperNil : Bool) : List CtorArg → WSt → Except Unit WSt
+  | [], w => .ok { w with alloc := ws.ptrs }
+  | a :: as, w =>
+    match a.rd with
+    | none => execCtor rs ws N mapperNil as w
+    | some rd =>
+      match resolveField rs.tree rd with
+      | none => .error ()
+      | some rl =>
+        if !derefOk rs.ptrs N rl.path then .error ()
+        else if !fnCallOk mapperNil a.strat then .error ()
+        else
+          let v := match a.strat with
+            | .func k => applyFn k (readLeaf N rl)
+            | _ => readLeaf N rl
+          execCtor rs ws N mapperNil as { w with vals := w.vals ++ [(joinPath a.p.path, v)] }
+
+def isSubStrat : Strat → Bool
+  | .sub _ _ | .each _ _ => true
+  | _ => false
+
+/-- element type a recursive mapping is called on -/
+def elemOf : Ty → Ty
+  | .slice x => x.strip.2
+  | x => x.strip.2
+
+def isPtrTy : Ty → Bool
+  | .ptr _ => true
+  | _ => false
+
+/-- the type mentions a named type declared in the source package -/
+def Ty.mentionsSrc : Ty → Bool
+  | .named p _ _ => p == .src
+  | .ptr e => e.mentionsSrc
+  | .slice e => e.mentionsSrc
+  | _ => false
+
+/-- does the statement type-check: both selectors resolve, a setter is not read, ToX/FromX exist only
+    on the mapped struct types, a pointer conversion `*T(x)` does not parse as one, and the conversion
+    target is printed package-qualified (`src.Label(x)`, or `<alias>.Label(x)`) even inside its own package -/
+def stmtCompiles (rs ws : Tree) (c : Claim) : Bool :=
+  (resolveField rs c.rd).isSome && (resolveField ws c.wr).isSome && !c.rd.isSet &&
+  (match c.strat with
+   | .sub _ _ | .each _ _ => (elemOf c.rd.ty).isStructNamed && (elemOf c.wr.ty).isStructNamed
+   | .conv => !isPtrTy c.wr.ty && !c.wr.ty.mentionsSrc
+   | _ => true)
+
+def argCompiles (rs : Tree) (a : CtorArg) : Bool :=
+  match a.rd with
+  | none => true
+  | some rd => (resolveField rs rd).isSome && !rd.isSet && !(a.strat == .conv && (isPtrTy a.p.ty || a.p.ty.mentionsSrc))
+
+inductive Outcome where
+  | panic
+  | nil
+  | value (w : WSt)
+  deriving Repr, Inhabited
+
+def ofExcept : Except Unit WSt → Outcome
+  | .ok w => .value w
+  | .error _ => .panic
+
+def Input.srcSem (inp : Input) : SideSem :=
+  ⟨inp.src, ptrPaths [] inp.src ++ (match inp.mapperPtr with | some true => [["Mapper"]] | _ => [])⟩
+def Input.destSem (inp : Input) : SideSem := ⟨inp.dest, ptrPaths [] inp.dest⟩
+
+/-- `s.ToX()` on a source value whose slots `N` are nil (`recvNil`: nil receiver) -/
+def execTo (inp : Input) (N : List String) (recvNil : Bool := false) : Outcome :=
+  if recvNil then .nil else
+  let p := plan inp
+  let t := tables inp p
+  let mapperNil := inp.mapperPtr == some true && N.contains "Mapper"
+  let rs := inp.srcSem
+  let ws := inp.destSem
+  ofExcept (do
+    let w0 ← match p.destCtor with
+      | some args => execCtor rs ws N mapperNil args {}
+      | none => execAlloc ws.ptrs t.destAlloc {}
+    execStmts rs ws N mapperNil p.toStmts w0)
+
+inductive Recv where
+  | nil | clean | dirty
+  deriving DecidableEq, Repr, Inhabited
+
+/-- `r.FromX(d)` on a destination value whose slots `N` are nil. Without a constructor the receiver
+    is reset first, so whatever `r` held is gone (including an embedded `*Mapper`); with one, the
+    arguments are evaluated on the ORIGINAL receiver, before the nil test -/
+def execFrom (inp : Input) (N : List String) (recv : Recv := .clean) (argNil : Bool := false) : Outcome :=
+  if argNil then .nil else
+  let p := plan inp
+  let t := tables inp p
+  let rs := inp.destSem
+  let ws := inp.srcSem
+  ofExcept (do
+    let w0 ← match p.srcCtor with
+      | some args =>
+        -- `s.Fn(x)` on the incoming receiver: nil receiver ⇒ panic; clean receiver ⇒ its *Mapper is nil
+        let mNil := recv == .nil || (inp.mapperPtr == some true && recv == .clean)
+        execCtor rs ws N mNil args {}
+      | none => execAlloc ws.ptrs t.srcAlloc {}
+    -- after the reset the embedded *Mapper is nil (the constructor does not allocate it either: it has no fields)
+    execStmts rs ws N (inp.mapperPtr == some true) p.fromStmts w0)
+
+def Outcome.show (leaves : List Leaf) : Outcome → String
+  | .panic => "panic"
+  | .nil => "nil"
+  | .value w => ";".intercalate (leaves.map (fun l => joinPath l.path ++ "=" ++ (w.get (joinPath l.path)).show))
 
 end ShootVerif.Mapper
